@@ -390,6 +390,29 @@ fn lex_err_of(out: &GenOutcome) -> Option<(usize, Option<char>)> {
     }
 }
 
+/// `kv streamprobe <inputs> <result>`: generate on every input, one result byte each, written to a FILE
+/// (the standard streams of this process are unusable on purpose).
+pub fn streamprobe_main(inputs: &str, result: &str) -> i32 {
+    let bytes = std::fs::read(inputs).expect("read inputs");
+    let mut out = vec![];
+    let mut i = 0;
+    while i + 4 <= bytes.len() {
+        let n = u32::from_le_bytes(bytes[i..i + 4].try_into().unwrap()) as usize;
+        i += 4;
+        let s = String::from_utf8_lossy(&bytes[i..i + n]).to_string();
+        i += n;
+        // (the default panic hook stays installed: it writes to the broken stderr, as in a user's process)
+        let r = std::panic::catch_unwind(|| kiki::generate(&s).is_ok());
+        out.push(match r {
+            Ok(true) => 0u8,
+            Ok(false) => 1,
+            Err(_) => 2,
+        });
+    }
+    std::fs::write(result, out).expect("write result");
+    0
+}
+
 impl Front {
     /// One case of the exhaustive code-point sweep: a lean comparison of the tapped tokenizer with the
     /// reference scanner; any disagreement is handed to the full monitor (which reports it).
@@ -718,6 +741,63 @@ impl Front {
         }
     }
 
+    /// The batch once more in a child process whose standard streams cannot be written (stdout and
+    /// stderr on /dev/full, or closed): a library call must not depend on them.  The child reports through
+    /// a file: one byte per input (0 Ok, 1 Err, 2 panic).
+    fn c07_streams(&self, w: &mut Worker, texts: &[String], closed: bool) {
+        let inputs = w.scratch.join(format!("c07-streams-{}.bin", w.shard));
+        let result = w.scratch.join(format!("c07-streams-{}.out", w.shard));
+        let _ = std::fs::remove_file(&result);
+        let mut buf = vec![];
+        for s in texts {
+            buf.extend_from_slice(&(s.len() as u32).to_le_bytes());
+            buf.extend_from_slice(s.as_bytes());
+        }
+        if std::fs::write(&inputs, buf).is_err() {
+            w.inconclusive("cannot write the stream probe");
+            return;
+        }
+        let exe = std::env::current_exe().expect("current_exe");
+        let mut cmd = std::process::Command::new(exe);
+        cmd.arg("streamprobe").arg(&inputs).arg(&result).stdin(std::process::Stdio::null());
+        if closed {
+            use std::os::unix::process::CommandExt;
+            cmd.stdout(std::process::Stdio::null()).stderr(std::process::Stdio::null());
+            unsafe {
+                cmd.pre_exec(|| {
+                    libc::close(1);
+                    libc::close(2);
+                    Ok(())
+                });
+            }
+        } else {
+            let full = || std::fs::OpenOptions::new().write(true).open("/dev/full").map(std::process::Stdio::from).unwrap_or_else(|_| std::process::Stdio::null());
+            cmd.stdout(full()).stderr(full());
+        }
+        crate::util::limit_cpu_and_memory(&mut cmd, 300, 8 << 30);
+        let status = cmd.status();
+        let got = std::fs::read(&result).unwrap_or_default();
+        if got.len() != texts.len() {
+            w.inconclusive(&format!("stream probe ended early: {status:?}, {} of {} answers", got.len(), texts.len()));
+            return;
+        }
+        w.count(if closed { "stream-probes:stdout-and-stderr-closed" } else { "stream-probes:stdout-and-stderr-on-/dev/full" });
+        for (t, g) in texts.iter().zip(got.iter()) {
+            w.eval();
+            if *g == 2 {
+                // (a panic that also happens with ordinary streams is reported by the ordinary run)
+                if !matches!(kside::generate(t, 50_000_000).0, GenOutcome::Panic(_)) {
+                    w.violation(
+                        "panic-with-unwritable-standard-streams",
+                        "generate panics when the standard output / error streams of the process cannot be written, and not otherwise",
+                        json!({"text": t, "text_debug": format!("{t:?}"), "streams": if closed { "closed" } else { "/dev/full" }}),
+                    );
+                    return;
+                }
+            }
+        }
+    }
+
     fn c07(&self, w: &mut Worker, class: &str, text: &str) {
         if text.len() > super::stress::MAX_BYTES {
             // outside the bounds the property is stated for
@@ -800,6 +880,10 @@ impl Engine for Front {
             self.c09_giant(w);
             return;
         }
+        if prop == "C07" && idx % 40 == 7 {
+            let texts: Vec<String> = (0..BATCH).map(|sub| input_for(&prop, w.tier, w.seed, idx, sub).1).filter(|t| t.len() <= super::stress::MAX_BYTES).collect();
+            self.c07_streams(w, &texts, idx % 80 == 47);
+        }
         for sub in 0..BATCH {
             w.sub(sub);
             let (class, text) = input_for(&prop, w.tier, w.seed, idx, sub);
@@ -836,7 +920,7 @@ impl Engine for Front {
             "C08" => format!("inputs: every string of 1 and 2 atoms (3 in the thorough tier) over a {}-atom alphabet built to hit every lexer transition (identifier characters, digits, all punctuation and brackets, $ # / :, LF CR CRLF TAB VT FF, every kind of Unicode White_Space (U+0085 U+00A0 U+1680 U+2000..U+200A U+2028 U+2029 U+202F U+205F U+3000), look-alikes that are not whitespace (U+200B U+180E U+FEFF U+001C), 2/3/4-byte letters, non-ASCII digits / numerics / letters / combining marks (² ½ ٣ １ Ⅷ ß Ω ａ İ U+0301 U+200D), reserved words, //, #[, ::, $x, $start ...), random soups of up to 64 atoms, valid files with 1-3 character edits, prefixes of valid files cut at every kind of boundary, attribute-centred bracket soups, token soups with and without separators; plus an EXHAUSTIVE code-point sweep: every one of the 1 112 064 Unicode scalar values in each of 7 single-character contexts (start of text, inside an identifier, after $, after /, after #, after :, after a terminal identifier) and in 4 contexts inside comments and attributes (plain, in a string, in nested brackets; 256 code points per text). One evaluation = one string tokenised by kiki (tap on the tokenizer + generate at the public boundary) compared token by token (kind, start, text) or error by error (byte index, character) with the reference scanner R-lex. Distinct non-trivial = distinct strings with >=2 tokens or a lexical error at index > 0.", gtext::ATOMS.len()),
             "C09" => "inputs: ONE text of 2^32 + 70 bytes (a 4 GiB comment line, then a small file with a syntax error: every reported position lies beyond 2^32) and lexically valid texts built from token sequences: prefix p of a valid file (repository examples, rendered grammar models, random sentences of the Kiki grammar itself) extended by each of the 17 token kinds (prefix-extension sweep), valid files with 0-3 token edits, token soups; joined with random whitespace/comments so spans are non-trivial. One evaluation = generate(text) compared with the verdict of the Kiki grammar as data under the reference canonical LR(1) recogniser (cross-checked by a hand-written predictive recogniser): accept, or Parse(start,text,end) of the first token that cannot continue any valid file, or the empty span at the end. Distinct non-trivial = distinct token-kind sequences rejected at index >=1 or accepted with >=10 tokens.".into(),
             "C10" => "inputs: syntactically valid files: (a) rendered grammar models with 0-3 injected edits (rename to an existing / hostile name, flip a reference between $terminal and nonterminal namespace, drop/duplicate start, drop/duplicate terminal enum, duplicate variant / nonterminal / terminal variant, start naming a terminal, capitalisation flips), re-laid-out at random; (b) random declarations over a 14-name pool so that every kind and combination of violation occurs. One evaluation = generate(text) compared with the set of all violations computed by R-validate from the reference AST: Ok/TableConflict only if the set is empty, otherwise the reported error (variant, name / symbol sequence, every byte position) must be an element of the set. Distinct non-trivial = distinct files (hash of the declaration structure) with >=1 violation present.".into(),
-            _ => "inputs: the union of the C08, C09 and C10 workloads (character soups incl. every 1- and 2-atom string, token-level and character-level edits of valid files, prefixes, files with injected static violations, well-formed but unusual grammars) plus size/depth stress files inside the property's bounds run in separate child processes in both the optimised and the unoptimised (dev-profile) build. One evaluation = one call of generate under catch_unwind with the H2 step limit armed (limit derived from the reference automaton when the text is a well-formed grammar); panics, step-limit trips, deaths by signal and exhausted CPU budgets are the refuting events. Distinct non-trivial = distinct inputs that got past the tokenizer.".into(),
+            _ => "inputs: the union of the C08, C09 and C10 workloads (character soups incl. every 1- and 2-atom string, token-level and character-level edits of valid files, prefixes, files with injected static violations, well-formed but unusual grammars) plus size/depth stress files inside the property's bounds run in separate child processes in both the optimised and the unoptimised (dev-profile) build. One evaluation = one call of generate under catch_unwind with the H2 step limit armed (limit derived from the reference automaton when the text is a well-formed grammar); panics, step-limit trips, deaths by signal and exhausted CPU budgets are the refuting events. Every 40th batch runs once more in a child process whose stdout and stderr cannot be written (/dev/full, or closed). Distinct non-trivial = distinct inputs that got past the tokenizer.".into(),
         }
     }
     fn floors(&self, prop: &str, tier: Tier, agg: &Agg) -> Vec<String> {
